@@ -149,6 +149,15 @@ def main():
     }
     spots = re.findall(r"^\s*(\w+),\s*$", lit(lib, r"pub enum FailSpotName \{(.*?)\}", "fail spots") if False else re.search(r"pub enum FailSpotName \{(.*?)\}", lib, re.S).group(1), re.M)
 
+    # does dump() reset the per-request fields before it builds the dumper?
+    dm = re.search(r"pub fn dump\(&mut self.*?\n    \}\n", mw, re.S)
+    resets = "none"
+    if dm:
+        head = dm.group(0).split("PtraceDumper::new_report_soft_errors")[0]
+        def reset_of(field):
+            return re.search(rf"self\.{field}\s*(=[^=]|\.clear\(\)|\.truncate\(0\))|mem::take\(&mut self\.{field}\)", head) is not None
+        fields = ["memory_blocks", "crashing_thread_context", "principal_mapping"]
+        resets = "some true" if all(reset_of(f) for f in fields) else "some false"
     out = []
     out.append("/- GENERATED by gen/extract.py from /repo's source — do not edit. -/")
     out.append("namespace Mdw.Src\n")
@@ -166,6 +175,7 @@ def main():
         out.append(f"/-- {v!r} -/\ndef {k} : List UInt8 := [{bs}]")
     out.append("")
     out.append("def failSpots : List String := [" + ", ".join(f'"{s}"' for s in spots) + "]")
+    out.append(f"\n/-- does `dump()` reset memory_blocks / crashing_thread_context / principal_mapping on entry? (none = not recognisable) -/\ndef dumpResetsTransient : Option Bool := {resets}")
     out.append("\nend Mdw.Src\n")
     text = "\n".join(out)
     os.makedirs(os.path.dirname(OUT), exist_ok=True)
